@@ -9,6 +9,8 @@
 #include "c20_ipf.inc"
 #include "c20_traits.inc"
 #include "c20_ctor.inc"
+#include "c20_calls2.inc"
+#include "c20_ret.inc"
 
 using namespace c20;
 
@@ -45,6 +47,17 @@ bool run_part5(std::string const& op, Toks& in, Out& impl, Out& ref);
 bool c20::run_part0(std::string const& op, Toks& in, Out& impl, Out& ref)
 {
     auto i = [&] { return static_cast<int>(in.num()); };
+    if (op == "ipfcall2") {
+        int sp = i(), a1 = i(), a2 = i();
+        op_ipfcall2<EtlLib>(sp, a1, a2, impl);
+        op_ipfcall2<StdLib>(sp, a1, a2, ref);
+        return true;
+    }
+    if (op == "fref2") {
+        int fc = i(), sp = i(), a1 = i(), a2 = i();
+        op_fref2(fc, sp, a1, a2, impl);
+        return true; // no std::function_ref in libstdc++ 12
+    }
     if (op == "get") {
         int tc = i(), k = i();
         op_get<EtlLib>(tc, k, impl);
@@ -132,6 +145,12 @@ bool c20::run_part0(std::string const& op, Toks& in, Out& impl, Out& ref)
         op_retref<StdLib>(which, ref);
         return true;
     }
+    if (op == "refwrapstd") {
+        auto x = in.num();
+        op_refwrapstd<EtlLib>(x, impl);
+        op_refwrapstd<StdLib>(x, ref);
+        return true;
+    }
     if (op == "refwrapops") {
         auto x = in.num(), y = in.num();
         op_refwrapops<EtlLib>(x, y, impl);
@@ -156,6 +175,47 @@ bool c20::run_part0(std::string const& op, Toks& in, Out& impl, Out& ref)
 bool c20::run_part1(std::string const& op, Toks& in, Out& impl, Out& ref)
 {
     auto i = [&] { return static_cast<int>(in.num()); };
+    if (op == "ret") {
+        int which = i(), rk = i();
+        op_ret<EtlLib>(which, rk, impl);
+        op_ret<StdLib>(which, rk, ref);
+        return true;
+    }
+    if (op == "retsig") {
+        int fref = i(), Rk = i(), rk = i();
+        if (fref == 0) {
+            op_retsig<EtlLib, false>(Rk, rk, impl);
+            op_retsig<StdLib, false>(Rk, rk, ref);
+        } else {
+            op_retsig<EtlLib, true>(Rk, rk, impl);
+            op_retsig<StdLib, true>(Rk, rk, ref);
+        }
+        return true;
+    }
+    if (op == "refwf") {
+        int ac = i();
+        op_refwf<EtlLib>(ac, impl);
+        op_refwf<StdLib>(ac, ref);
+        return true;
+    }
+    if (op == "bindfront2") {
+        int wc = i(), a1 = i(), a2 = i();
+        op_bindfront2<EtlLib>(wc, a1, a2, impl);
+        op_bindfront2<StdLib>(wc, a1, a2, ref);
+        return true;
+    }
+    if (op == "notfn2") {
+        int wc = i(), a1 = i(), a2 = i(), v = i();
+        op_notfn2<EtlLib>(wc, a1, a2, v, impl);
+        op_notfn2<StdLib>(wc, a1, a2, v, ref);
+        return true;
+    }
+    if (op == "refwrap2") {
+        int c = i(), a1 = i(), a2 = i();
+        op_refwrap2<EtlLib>(c, a1, a2, impl);
+        op_refwrap2<StdLib>(c, a1, a2, ref);
+        return true;
+    }
     if (op == "bindfront") {
         int wc = i(), bk = i(), ac = i();
         op_bindfront<EtlLib>(wc, bk, ac, impl);
@@ -240,6 +300,18 @@ bool c20::run_part2(std::string const& op, Toks& in, Out& impl, Out& ref)
 bool c20::run_part3(std::string const& op, Toks& in, Out& impl, Out& ref)
 {
     auto i = [&] { return static_cast<int>(in.num()); };
+    if (op == "catk") {
+        int k = i(), c = i();
+        op_catk<EtlLib>(k, c, impl);
+        op_catk<StdLib>(k, c, ref);
+        return true;
+    }
+    if (op == "telem") {
+        int k = i();
+        op_telem<EtlLib>(k, impl);
+        op_telem<StdLib>(k, ref);
+        return true;
+    }
     if (op == "pctor") {
         int k = i(), a = i();
         op_pctor<EtlLib>(k, a, impl);
@@ -272,6 +344,12 @@ bool c20::run_part3(std::string const& op, Toks& in, Out& impl, Out& ref)
 bool c20::run_part4(std::string const& op, Toks& in, Out& impl, Out& ref)
 {
     auto i = [&] { return static_cast<int>(in.num()); };
+    if (op == "prelnan") {
+        auto a1 = in.num(), a2 = in.num(), b1 = in.num(), b2 = in.num();
+        op_prelnan<EtlLib>(a1, a2, b1, b2, impl);
+        op_prelnan<StdLib>(a1, a2, b1, b2, ref);
+        return true;
+    }
     if (op == "prel" || op == "pops") {
         auto a1 = in.num(), a2 = in.num(), b1 = in.num(), b2 = in.num();
         if (op == "prel") {
